@@ -177,6 +177,10 @@ def n_entries(tab, miss):
     return cnt[-1]
 
 
+class UnfilledDraw(Exception):
+    pass
+
+
 def build_test(rs, root, label, obs_mode, N):
     """choose an evidence row (values drawn from the model itself, so the evidence has positive
     probability), draw N completions, count every completion.  Returns a dict or None (too large)."""
@@ -192,6 +196,9 @@ def build_test(rs, root, label, obs_mode, N):
     width = max(scope) + 1 + int(rs.randint(0, 2))        # sometimes a column outside the scope
     contvars = sorted({int(o.scope[0]) for o in objs if is_cont(o)})
     joint = sample(root, np.full((1, width), np.nan, dtype=np.float32))[0]
+    if np.isnan(joint[scope]).any():
+        raise UnfilledDraw(dict(circuit=tab.brief() if "tab" in dir() else G.Table(root).brief(),
+                                unconditional_draw=[None if np.isnan(t) else float(t) for t in joint]))
     # which variables are observed
     if isinstance(obs_mode, dict):          # prescribed evidence values
         obs = sorted(obs_mode)
@@ -384,7 +391,14 @@ def main(tier, seed, replay=None):
                     obs = [int(bins[rs.randint(len(bins))])]
             else:
                 obs = mode
-            t = build_test(rs, root, label, obs, N)
+            try:
+                t = build_test(rs, root, label, obs, N)
+            except UnfilledDraw as e:
+                if dist.get("unfilled_draws", 0) < 3:
+                    rep.violation(dict(kind="exact-clause", what="an unconditional draw (all entries missing) leaves entries unfilled",
+                                       test=label, **e.args[0]), True)
+                dist["unfilled_draws"] = dist.get("unfilled_draws", 0) + 1
+                t = None; break
             if t is not None:
                 break
         if t is None:
